@@ -46,6 +46,10 @@ def decodeAscii : Bytes → PyM Str
       pure (byteChar b :: r)
     else throw .unicode
 
+/-- `bs.decode("ascii", errors="replace")`: one U+FFFD per byte ≥ 0x80, so offsets stay byte-exact -/
+def decodeAsciiReplace (bs : Bytes) : Str :=
+  bs.map fun b => if b.toNat < 128 then byteChar b else '\uFFFD'
+
 def decodeLatin1 : Bytes → PyM Str
   | [] => pure []
   | b :: bs => do
